@@ -7,6 +7,7 @@ import (
 	"bufio"
 	"encoding/json"
 	"fmt"
+	"io"
 	"os"
 	"os/exec"
 	"regexp"
@@ -123,7 +124,7 @@ type task struct {
 	Deadline int64  `json:"d"` // unix nanoseconds
 	MaxViol  int    `json:"v"`
 	MaxExecs int64  `json:"m"`
-	Iterate  bool   `json:"i"` // explore bounds 0..Bound in turn, stop at the first bound with a violation
+	Iterate  bool   `json:"i"`  // explore bounds 0..Bound in turn, stop at the first bound with a violation
 	NoClass  bool   `json:"nc"` // do not classify violations (no traced replays): race-only runs
 }
 
@@ -397,6 +398,7 @@ type worker struct {
 	cmd *exec.Cmd
 	in  *bufio.Writer
 	out *bufio.Reader
+	stdin io.WriteCloser
 }
 
 type Pool struct {
@@ -430,7 +432,7 @@ func NewPool(n int) (*Pool, error) {
 		if err := cmd.Start(); err != nil {
 			return nil, err
 		}
-		w := &worker{cmd: cmd, in: bufio.NewWriter(stdin), out: bufio.NewReaderSize(stdout, 1<<20)}
+		w := &worker{cmd: cmd, in: bufio.NewWriter(stdin), out: bufio.NewReaderSize(stdout, 1<<20), stdin: stdin}
 		p.all = append(p.all, w)
 		p.workers <- w
 	}
@@ -440,8 +442,10 @@ func NewPool(n int) (*Pool, error) {
 func (p *Pool) Close() {
 	for _, w := range p.all {
 		w.in.Flush()
-		if c, ok := w.cmd.Stdin.(interface{ Close() error }); ok {
-			_ = c
+		if os.Getenv("VERIF_CPUPROFILE") != "" {
+			w.stdin.Close() // let the worker return from main and write its profile
+			_ = w.cmd.Wait()
+			continue
 		}
 		_ = w.cmd.Process.Kill()
 		_ = w.cmd.Wait()
